@@ -118,5 +118,6 @@ package throttle
 //@ func NewConfig
 //@   mode permissive
 //@   allocates
+//@   only [C05,C11] thermalThrottler in Unmarshal#1, store, use:Return
 //@   ensures result1 == nil ==> result0 != nil
 //@   check [C11,C05] ncalls("Unmarshal") == 1 && callarg("Unmarshal", 1, 1) == config.ThermalThrottlerKey && ncalls("DefaultThermalThrottler") == 1
